@@ -415,3 +415,16 @@ class _(Contract):
         return mk_graph(lambda x: L.exists(1, lambda v: L.And(g.N(v), x == f(v))),
                         lambda p, q: L.exists(2, lambda u, v: L.And(g.D(u, v), free(v), p == f(u), q == f(v))),
                         lambda p, q: L.exists(2, lambda u, v: L.And(g.U(u, v), free(u), free(v), p == f(u), q == f(v))))
+
+
+@contract(f"{G}.__eq__", props=["C14"])
+class _(Contract):
+    """Graph equality (the relation every C14 clause and every round-trip claim is stated in): equal node sets, equal directed edge
+    sets, equal bidirected edge sets (unordered)."""
+    params = {"self": "graph", "other": "graph"}
+
+    def spec(self, ex, a):
+        L, g, h = ex.L, a.self, a.other
+        return VBool(L.And(L.forall(1, lambda x: g.N(x) == h.N(x)),
+                           L.forall(2, lambda p, q: g.D(p, q) == h.D(p, q)),
+                           L.forall(2, lambda p, q: g.U(p, q) == h.U(p, q))))
